@@ -338,6 +338,30 @@ def c10_streams(rng, tier, budget):
             for x, y in ((d, t), (t, d), (d, k), (d, b0), (b0, d), (d, d)):
                 st2.cmp(x, y)
     yield "derived-after-hash", st2
+    # ordering is Python's tuple-of-str order, i.e. code-point order per component (C10Order.lean: `PySpec.seqCmp`, `ltStr`): texts stored
+    # verbatim (encoded=True) whose first difference is a lone surrogate / a BMP character above the surrogates / a non-BMP character (UTF-16
+    # and UTF-8-with-surrogatepass orders differ from code-point order exactly there), proper prefixes, the empty string, and differences in an
+    # EARLIER component that must win over a later one.  Ties the specification of the order to CPython on every run.
+    st3 = Stream()
+    atoms = ["", "a", "b", "a\x00", "a\x7f", "a\x80", "a\xff", "aĀ", "a퟿", "a\ud800", "a\udbff", "a\udc00", "a\udfff", "a", "a￿",
+             "a\U00010000", "a\U0010ffff", "a𐀀", "a\U00010000b", "a￿b", "aa", "a\udfffz", "aa"]
+    if tier != "quick":
+        atoms += ["".join(chr(rng.choice([0x61, 0x7f, 0x80, 0x7ff, 0x800, 0xd7ff, 0xd800, 0xdfff, 0xe000, 0xffff, 0x10000, 0x10ffff])) for _ in range(rng.randint(1, 4)))
+                  for _ in range(int(20 * budget))]
+    hs3 = []
+    for t in atoms:
+        hs3.append(st3.new("/p" + t, encoded=True))                       # path
+        hs3.append(st3.new("/p?" + t, encoded=True))                      # query
+        hs3.append(st3.new("/p#" + t, encoded=True))                      # fragment
+    for t in atoms[:12]:
+        hs3.append(st3.build(scheme="x", host="h" + t, path="/", encoded=True))          # authority
+        hs3.append(st3.build(scheme="x", host="h", path="/" + t, query_string="\U0010ffff", encoded=True))   # earlier component decides
+    for h in hs3:
+        st3.obs_all(h, ["val"])
+    for a in hs3:
+        for c in hs3:
+            st3.cmp(a, c)
+    yield "code-point-order", st3
 
 
 def c10_oracle(full, io, b):
@@ -846,7 +870,8 @@ def c13_streams(rng, tier, budget):
     # "with_name(n) has … the same parent" and "u / s has parent parts equal to u's parts without a trailing empty segment",
     # as URL-level equalities, over every base shape (authority or not; empty, root, one and two segments; trailing slash)
     st2 = Stream()
-    for bs in ["/", "/t", "/t/", "/a/b", "t", "a/b", "", "x:/t", "x:t", "http://h", "http://h/", "http://h/t", "http://h/t/", "http://h/a/b", "//h/t", "http://h/t?q#f", "/t?q#f"]:
+    for bi, bs in enumerate(["/", "/t", "/t/", "/a/b", "t", "a/b", "", "x:/t", "x:t", "http://h", "http://h/", "http://h/t", "http://h/t/", "http://h/a/b", "//h/t", "http://h/t?q#f",
+                             "/t?q#f", "http://h/t/", "http://h/t", "/t/", "/t", "http://h/d/e/", "http://h/d/e"]):
         h = st2.new(bs)
         st2.obs_all(h, ["val", "raw_parts"])
         hp = st2.mod(h, "parent")
@@ -858,7 +883,9 @@ def c13_streams(rng, tier, budget):
             st2.obs_all(vp, ["val", "raw_parts"])
             st2.cmp(vp, hp)
             st2.add("tag\tsame-parent\t%d\t%d" % (vp, hp))
-        for sg in ("a", "a b", "x.y"):
+        # segment names used by this base only come first: `u / s` of a base with and of one without a trailing slash are EQUAL URLs (one shared
+        # object in the from_parts cache), so with shared names only the first of the two bases decides what the child remembers
+        for sg in ("n%d" % bi, "n %d" % bi, "a", "a b", "x.y"):
             c = st2.mod(h, "truediv", enc(sg))
             cp = st2.mod(c, "parent")
             st2.obs_all(c, ["val"])
@@ -903,7 +930,7 @@ def c13_oracle_full(full, io, b):
                                 "n": v.n_of(x, "val"), "also": [v.n_of(y, "val")], "input": describe_handle(full, x)})
             else:
                 # parent(u / s) is u with query and fragment cleared and at most one trailing slash removed
-                want = {pc[2], pc[2][:-1] if pc[2].endswith("/") else pc[2]}
+                want = {pc[2][:-1]} if (pc[2].endswith("/") and pc[2] != "/") else {pc[2]}     # exactly ONE trailing empty segment goes ('/' itself stays)
                 if pc[1]:
                     want |= {"", "/"} if pc[2] in ("", "/") else set()
                 if (pa[0], pa[1]) != (pc[0], pc[1]) or pa[2] not in want or pa[3] or pa[4]:
@@ -1040,6 +1067,14 @@ def c14_streams(rng, tier, budget):
     for h in sb2 + sr2:
         st.obs_all(h, C14_OBS)
     pairs = pairs + [(a, c) for a in sb2 for c in sr2]
+    # bases whose STORED path still has dot segments (no authority, or stored as given by encoded=True): 5.2.4 applies to the MERGED path, so
+    # the base's dot segments go even when the reference has none ('/a/b/../c/d' + 'g' is '/a/c/g')
+    sb3 = [st.new(x) for x in ("/a/b/../c/d", "/a/./b/c", "/a/b/..", "/../a/b", "x:/a/../b/c", "/a/b/../c/", "/a/b/./")] + \
+          [st.new(x, encoded=True) for x in ("http://h/a/b/../c/d", "http://h/a/./b", "//h/a/../b/", "/a/b/../c/d")]
+    sr3 = [st.new(x) for x in ("g", "g/", "g/h", "g?y", "g#s", "g;x", "../g", "./g", "", "?y", "/g")]
+    for h in sb3 + sr3:
+        st.obs_all(h, C14_OBS)
+    pairs = pairs + [(a, c) for a in sb3 for c in sr3]
     for a, c in pairs:
         j = st.join(a, c)
         st.obs_all(j, C14_OBS)
